@@ -29,7 +29,18 @@ def shard_main(argv):
     faulthandler.enable()
     mod = load_check(prop)
     params = dict(mod.TIERS[tier])
-    faulthandler.dump_traceback_later(params.get('watchdog_s', 3000), exit=True)
+    # wall-clock watchdog by SIGALRM, not faulthandler.dump_traceback_later: the latter's watchdog
+    # thread leaves a lock held in every forked child (M-FORK), where any later
+    # cancel_dump_traceback_later() - pytest calls it - would wait for ever
+    import signal
+
+    def _watchdog(signum, frame):
+        faulthandler.dump_traceback()
+        sys.stderr.write('Timeout (shard watchdog)!\n')
+        sys.stderr.flush()
+        os._exit(3)
+    signal.signal(signal.SIGALRM, _watchdog)
+    signal.alarm(int(params.get('watchdog_s', 3000)))
     scratch = os.path.join(common.SCRATCH, 'shard%d' % shard)
     os.makedirs(scratch, exist_ok=True)
     ctx = common.Ctx(prop, tier, seed, shard, nshards, params, scratch)
@@ -238,8 +249,10 @@ def main():
         print('%s: VIOLATED (%d refuting executions not covered by known_findings.json)' % (prop, n_unknown))
         return 1
     if inconclusive:
-        for r in inconclusive:
-            print('INCONCLUSIVE: %s' % r[:2000])
+        for r in inconclusive[:6]:
+            print('INCONCLUSIVE: %s' % r[:600])
+        if len(inconclusive) > 6:
+            print('INCONCLUSIVE: ... and %d more reasons (see evidence file)' % (len(inconclusive) - 6))
         return 2
     print('%s: held on everything observed' % prop)
     return 0
